@@ -202,3 +202,114 @@ pub fn replay(o: &Opts, parts: &[&str]) -> i32 {
         0
     }
 }
+
+// ---------------------------------------------------------------------------------------------
+// Directed witnesses of the known findings: fixed scenarios executed by every run of the owning
+// checks, so that the KNOWN-FINDING line does not depend on the luck of a seed.
+// ---------------------------------------------------------------------------------------------
+
+use crate::probe::{ProbeSpec, React};
+use crate::puppet::{Fin, Mode, PuppetSpec};
+use crate::seq::{run_case_with, Act};
+use crate::topo::Topo;
+
+pub struct Witness {
+    pub name: &'static str,
+    pub prop: &'static str,
+    pub spec: CaseSpec,
+    pub acts: Vec<Act>,
+}
+
+fn pspec(mode: Mode, fin: Fin) -> PuppetSpec {
+    PuppetSpec { mode, late: false, fin, burst: 0 }
+}
+
+fn base_spec(topo: Topo, pspecs: Vec<PuppetSpec>, lens: Vec<usize>, probe_specs: Vec<ProbeSpec>) -> CaseSpec {
+    CaseSpec { topo, pspecs, lens, probe_specs, max_steps: 0, drain: false, credit_env: false, weights: [1, 1, 1, 1, 1, 1] }
+}
+
+pub fn witnesses() -> Vec<Witness> {
+    vec![
+        Witness {
+            name: "D1 combine swallows a member error",
+            prop: "C05",
+            spec: base_spec(
+                Topo::Combine(2),
+                vec![pspec(Mode::Listen, Fin::Err), pspec(Mode::Listen, Fin::Never)],
+                vec![1, 1],
+                vec![ProbeSpec::passive()],
+            ),
+            acts: vec![Act::PuppetStep(0, 0), Act::PuppetStep(1, 0), Act::PuppetStep(0, 0)],
+        },
+        Witness {
+            name: "D2 combine turns the error of the last member to end into a completion",
+            prop: "C05",
+            spec: base_spec(
+                Topo::Combine(2),
+                vec![pspec(Mode::Listen, Fin::Err), pspec(Mode::Listen, Fin::End)],
+                vec![1, 1],
+                vec![ProbeSpec::passive()],
+            ),
+            acts: vec![
+                Act::PuppetStep(1, 0),
+                Act::PuppetStep(1, 0),
+                Act::PuppetStep(0, 0),
+                Act::PuppetStep(0, 0),
+            ],
+        },
+        Witness {
+            name: "K1a share: stale outer fan-out after Terminate",
+            prop: "C02",
+            spec: base_spec(
+                Topo::Share(2),
+                vec![pspec(Mode::PullSync, Fin::End)],
+                vec![2],
+                vec![ProbeSpec { policy: vec![React::Nothing], rest: React::Pull }, ProbeSpec::passive()],
+            ),
+            acts: vec![Act::Subscribe(1), Act::ProbeAct(1, React::Pull)],
+        },
+        Witness {
+            name: "K1b share: stale outer fan-out after the sink disposed",
+            prop: "C03",
+            spec: base_spec(
+                Topo::Share(2),
+                vec![pspec(Mode::PullSync, Fin::End)],
+                vec![3],
+                vec![
+                    ProbeSpec { policy: vec![React::Nothing, React::Pull, React::Nothing], rest: React::Nothing },
+                    ProbeSpec { policy: vec![React::Nothing, React::Terminate], rest: React::Nothing },
+                ],
+            ),
+            acts: vec![Act::Subscribe(1), Act::ProbeAct(1, React::Pull)],
+        },
+    ]
+}
+
+/// Run the directed witnesses that belong to `prop`; record which ones still reproduce.
+pub fn run_witnesses(o: &Opts, rep: &mut Report) {
+    let known = load_known(&o.known);
+    let which = Which::for_prop(&o.prop);
+    let mut status = vec![];
+    for w in witnesses() {
+        if w.prop != o.prop {
+            continue;
+        }
+        let mut c = Chooser::scripted(vec![]);
+        let r = run_case_with(&w.spec, &mut c, &which, Some(&w.acts));
+        let before = rep.known_hits.values().map(|v| v.0).sum::<u64>();
+        let id = format!("E1w:{}:{}", o.prop, w.name);
+        let vio = digest(rep, &o.prop, &w.spec.topo.op_name(), &id, &w.spec, &r, &known, false);
+        let after = rep.known_hits.values().map(|v| v.0).sum::<u64>();
+        let outcome = if after > before {
+            "reproduced (matches an open known finding)"
+        } else if vio {
+            "violates, but not listed as known"
+        } else {
+            "finding not reproduced"
+        };
+        status.push(J::obj().set("witness", J::s(w.name)).set("outcome", J::s(outcome)));
+    }
+    if !status.is_empty() {
+        rep.extra.push(("known_finding_witnesses".into(), J::Arr(status)));
+    }
+}
